@@ -3,6 +3,7 @@ package rag
 import (
 	"fmt"
 	"strings"
+	"unicode/utf8"
 )
 
 // SizeUnit defines the unit of measurement for chunk sizes
@@ -411,12 +412,33 @@ func (sc *SizeCalculator) FindSplitPointAt(text string, boundaries []Boundary, t
 	if sc.config.SplitAtSemanticBoundaries && len(boundaries) > 0 {
 		bestBoundary := findBestBoundaryNear(boundaries, targetPos, targetPos/4)
 		if bestBoundary != nil {
-			return bestBoundary.Position
+			return alignToRuneStart(text, bestBoundary.Position)
 		}
 	}
 
 	// Fall back to finding a sentence boundary
-	return findSentenceEndNear(text, targetPos)
+	return alignToRuneStart(text, findSentenceEndNear(text, targetPos))
+}
+
+// alignToRuneStart moves a split position that falls inside a multi-byte UTF-8
+// sequence back to the start of that character, so that splitting never produces
+// invalid UTF-8. If that would leave nothing before the split, the position is
+// moved past the character instead.
+func alignToRuneStart(text string, pos int) int {
+	if pos <= 0 || pos >= len(text) {
+		return pos
+	}
+	start := pos
+	for start > 0 && !utf8.RuneStart(text[start]) {
+		start--
+	}
+	if start > 0 {
+		return start
+	}
+	for pos < len(text) && !utf8.RuneStart(text[pos]) {
+		pos++
+	}
+	return pos
 }
 
 // findBestBoundaryNear finds the highest-scored boundary within tolerance of position
